@@ -43,7 +43,7 @@ fn strategy(t: Tier) -> BoxedStrategy<OrderCase> {
 }
 
 fn parts() -> Vec<Box<dyn PartDyn>> {
-    vec![Box::new(GenPart { name: "order_surplus", quick: 12_000, thorough: 400_000, shrink_iters: 600, strat: strategy, check })]
+    vec![Box::new(GenPart { name: "order_surplus", quick: 25_000, thorough: 400_000, shrink_iters: 600, strat: strategy, check })]
 }
 
 fn interleaved(v: &[Given]) -> bool {
